@@ -539,7 +539,7 @@ func vGenNoteLine(t *rapid.T, o vLayoutOpts, label string) vLine {
 	return vLine{Kind: vkTNote, Text: w(label + ".t"), L: vGenNoteLayout(t, o, label)}
 }
 
-var vCommentTexts = []string{"", " daily nutrition budget", " TODO", "# double", " a: 1", "\ttabbed", " ---", " x: y: z"}
+var vCommentTexts = []string{"", " daily nutrition budget", " TODO", "# double", " a: 1", "\ttabbed", " ---", " x: y: z", " seasoning:", "egg/fried:", " per 100 g: ", " 2021/01/05:", "x:", " -", " \"quoted\":", ":", " x: 1 "}
 
 func vGenFillerLine(t *rapid.T, o vLayoutOpts, label string) vLine {
 	eol := vGenEOL(t, o, label)
